@@ -282,4 +282,19 @@ theorem be64_rd64 (x : UInt64) :
   simp only [Nat.shiftRight_eq_div_pow]
   omega
 
+/-! ### `copy` and the 64-bit store, as the generated encoders use them (`Gen/Funcs.lean`) -/
+
+/-- `binary.BigEndian.PutUint64(d[lo:hi], v)` -/
+def Bytes.putBE64 (d : Bytes) (lo hi : Nat) (v : UInt64) : Res Bytes :=
+  if lo ≤ hi ∧ hi ≤ d.length then
+    (if hi - lo < 8 then .panic "index out of range" else .ok (d.take lo ++ be64 v ++ d.drop (lo + 8)))
+  else .panic "slice bounds out of range"
+
+/-- `copy(dst[off:], src)` (`copy(dst, src)` is `off = 0`): the slice expression panics when `off > len(dst)`; `copy` itself never
+panics and copies `min(len(dst) - off, len(src))` bytes; the rest of `dst` keeps its contents -/
+def Bytes.copyAt (dst : Bytes) (off : Nat) (src : Bytes) : Res Bytes :=
+  if off ≤ dst.length then
+    .ok (dst.take off ++ src.take (min (dst.length - off) src.length) ++ dst.drop (off + min (dst.length - off) src.length))
+  else .panic "slice bounds out of range"
+
 end OAP
